@@ -228,7 +228,7 @@ Definition demo_init : pstate := mkP 4 (PLeaf 0%N 4 [] [] NULL) 0%N None 1%N.
 Lemma demo_init_new : py_new 4 = Ok demo_init.
 Proof. reflexivity. Qed.
 
-Definition demo_state : res pstate := py_update demo_init demo_items.
+Notation demo_state := (py_update demo_init demo_items).
 
 (* the decidable components of the conclusion of [py_setitem_spec], checked by computation
    along the whole run *)
@@ -250,7 +250,7 @@ Proof.
   exists s. split; [exact E|].
   pose proof (py_new_PyInv _ demo_init_new) as I0.
   destruct (py_update_setitems demo_items I0) as (s' & E' & I' & _).
-  unfold demo_state in E. rewrite E in E'. injection E' as <-.
+  rewrite E in E'. injection E' as <-.
   split; [exact I'|]. split; [exact Hh|].
   intros k v. destruct (py_setitem_spec k v I') as (s2 & E2 & I2 & C2 & _).
   exists s2. auto.
